@@ -83,7 +83,7 @@ impl<T: ?Sized> BorrowMut<T> for Static<T> {
 /// which is safe to do since `Static` is `#[repr(transparent)]`.
 pub struct StaticPtrMeta<P>(PhantomData<P>);
 
-impl<T: ?Sized, M, P: PtrMeta<T, M>> PtrMeta<Static<T>, M> for StaticPtrMeta<P> {
+unsafe impl<T: ?Sized, M, P: PtrMeta<T, M>> PtrMeta<Static<T>, M> for StaticPtrMeta<P> {
     type PtrMetadata = P::PtrMetadata;
     type Thin = Static<P::Thin>;
 
